@@ -26,6 +26,7 @@ fn main() {
         "c14" => checks::c14::main(&a),
         "c15" => checks::c15::main(&a),
         "c16" => checks::c16::main(&a),
+        "c17" => checks::c17::main(&a),
         "c20" => checks::c20::main(&a),
         other => report::machinery(&format!("unknown check {other}")),
     }
